@@ -82,6 +82,8 @@ type Enc struct {
 	usedAssumes map[string]bool
 	waived      []string
 	nclosures   int
+	touched     []touchedRef
+	touchedSeen map[string]bool
 	closureIDs  []*closureVal
 }
 
@@ -429,4 +431,36 @@ func (e *Enc) embRef(ref Term, t types.Type, i int) Term {
 		e.U.declareFun("emb.tag", []Sort{SInt}, SInt)
 	}
 	return app(SInt, name, ref)
+}
+
+// touchedRef: an object of a type with a declared invariant that this
+// function allocated or whose fields it stored to; its invariant must hold
+// when the function returns (K7).
+type touchedRef struct {
+	ref Term
+	typ types.Type
+	how string
+}
+
+func (e *Enc) touch(ref Term, ptrType types.Type, how string) {
+	_, stT, ok := isStructPtr(ptrType)
+	if !ok {
+		return
+	}
+	n, isNamed := stT.(*types.Named)
+	if !isNamed || n.Obj().Pkg() == nil {
+		return
+	}
+	key := n.Obj().Pkg().Name() + "." + n.Obj().Name()
+	if len(e.P.Specs.TypeInvs[key]) == 0 {
+		return
+	}
+	if e.touchedSeen == nil {
+		e.touchedSeen = map[string]bool{}
+	}
+	if e.touchedSeen[ref.S] {
+		return
+	}
+	e.touchedSeen[ref.S] = true
+	e.touched = append(e.touched, touchedRef{ref, ptrType, how})
 }
